@@ -163,6 +163,11 @@ def argv_of(case, ws, absolute):
     return argv
 
 
+def shown_argv(case, ws):
+    """argv for evidence / reports: the scratch directory's random name is not part of the case."""
+    return [a.replace(ws.dir, "<scratch>") for a in argv_of(case, ws, False)]
+
+
 def stdin_text(case):
     lst = case["list"]
     return inst_text(lst["stdin"], 0) if isinstance(lst, dict) else ""
@@ -481,9 +486,9 @@ def run_unit(unit, ctx):
                                         "expected_nonzero": e2["nonzero"],
                                         "observed": {"status": o2["status"], "raised": o2["raised"],
                                                      "stdout": o2["stdout"][:400], "stderr": o2["stderr"][:600]},
-                                        "argv": argv_of(small, ws, False), "unshrunk": case}})
+                                        "argv": shown_argv(small, ws), "unshrunk": case}})
             if len(samples) < 2 and n % 53 == 7:
-                samples.append({"argv": argv_of(case, ws, False), "mode": case["mode"],
+                samples.append({"argv": shown_argv(case, ws), "mode": case["mode"],
                                 "expected_fold": model.coarse(exp), "expected_nonzero": exp["nonzero"],
                                 "observed_status": obs["status"]})
     # every subprocess configuration is also an in-process one: its fold states are counted there
@@ -497,7 +502,7 @@ def replay(case, ctx):
     with Workspace() as ws:
         prob, exp, obs = judge(case, ws, ctx)
         return {"reproduced": prob is not None, "problem": prob and prob[0], "info": prob and prob[1],
-                "argv": argv_of(case, ws, False), "expected_fold": model.coarse(exp),
+                "argv": shown_argv(case, ws), "expected_fold": model.coarse(exp),
                 "expected_nonzero": exp["nonzero"],
                 "observed": {"status": obs["status"], "raised": obs["raised"],
                              "stdout": obs["stdout"][:400], "stderr": obs["stderr"][:600]}}
